@@ -179,6 +179,76 @@ theorem distinct_toMap (e : Pose) (h : e.rot.IsUnit) (a b : Obj) (hab : a.samePo
     (a.toMap e).samePose (b.toMap e) = false := by
   rw [samePose_toMap e h]; exact hab
 
+/-! ## full 3-D content and every filter criterion
+
+Objects and ego have heights (`z` offsets of several metres, ego `z ≠ 0`). The inverse transform gives
+back the whole ego-relative position (`egoPos3_toMap`); the ring filter reads its planar norm only, so
+the BEV distance of the map rendering is the BEV distance of the ego rendering and depends on no height
+(`bevDist2_toMap`, `bevDist2_height_free`). Every criterion of `_is_target_object` — target labels,
+ignored attributes, confidence, x/y box, distance ring, minimum point count, target uuids — reads either
+a frame-free attribute or that planar position: the evaluation config's filter followed by the critical
+object filter keeps the same objects in both renderings of any 3-D scene (`kept_toMap`). -/
+
+theorem egoPos3_toMap (e : Pose) (h : e.rot.IsUnit) (o : Obj) :
+    toEgo3 e (o.toMap e).box.center = o.box.center :=
+  toEgo3_apply3 e h o.box.center
+
+/-- `get_distance_bev(transforms)` of the map rendering = `get_distance_bev()` of the ego rendering -/
+theorem bevDist2_toMap (e : Pose) (h : e.rot.IsUnit) (o : Obj) :
+    bevDist2Map e (o.toMap e) = bevDist2Ego o := by
+  unfold bevDist2Map bevDist2Ego
+  simp only
+  rw [egoPos3_toMap e h]
+
+/-- the BEV distance sees neither the height of the object nor the height of the ego -/
+theorem bevDist2_height_free (e : Pose) (o : Obj) (z tz : Rat) :
+    bevDist2Map { e with t := ⟨e.t.x, e.t.y, tz⟩ }
+        { o with box := { o.box with center := ⟨o.box.center.x, o.box.center.y, z⟩ } } = bevDist2Map e o := by
+  rfl
+
+/-- two filters in a row commute with rendering a BASE_LINK scene into the MAP frame -/
+theorem filter2_renderMap (Pm Pc : Filter.Params) (os : List Filter.Obj) (e : Filter.Pose)
+    (he : e.c * e.c + e.s * e.s = 1) (h : ∀ o ∈ os, o.frame = "base_link" ∧ o.pos ≠ none) :
+    filter2 { Pm with hasTransforms := true } { Pc with hasTransforms := true } (os.map (Filter.renderMap e)) =
+      (filter2 { Pm with hasTransforms := true } { Pc with hasTransforms := true } os).map
+        (List.map (Filter.renderMap e)) := by
+  unfold filter2
+  have h1 := C10.filter_frame_invariant { Pm with hasTransforms := true } os e he h
+  rw [h1]
+  cases hk : Filter.filterObjects { Pm with hasTransforms := true } os with
+  | error err => rfl
+  | ok ks =>
+    have hks : ∀ o ∈ ks, o.frame = "base_link" ∧ o.pos ≠ none := by
+      obtain ⟨_, hf⟩ := Filter.filterE_ok hk
+      intro o ho
+      rw [hf] at ho
+      exact h o (List.mem_of_mem_filter ho)
+    exact C10.filter_frame_invariant { Pc with hasTransforms := true } ks e he hks
+
+/-- the ground truths (or estimates) that survive the evaluation config's filter and the critical object
+filter are the same in both renderings of a 3-D scene: for every ego pose (unit yaw, any translation
+including height), all heights of the objects, and every configuration of the criteria -/
+theorem kept_toMap (e : Pose) (h : e.rot.IsUnit) (Pm Pc : Filter.Params) (os : List Tagged) :
+    keptMap e Pm Pc (os.map (Tagged.toMap e)) = keptEgo Pm Pc os := by
+  unfold keptMap keptEgo
+  have hm : (os.map (Tagged.toMap e)).map (filterViewMap e)
+      = (os.map filterViewEgo).map (Filter.renderMap e.planar) := by
+    rw [List.map_map, List.map_map]
+    apply List.map_congr_left
+    intro t _
+    exact filterView_toMap e t
+  have hb : ∀ o ∈ os.map filterViewEgo, o.frame = "base_link" ∧ o.pos ≠ none := by
+    intro o ho
+    obtain ⟨t, _, rfl⟩ := List.mem_map.1 ho
+    exact ⟨rfl, by simp [filterViewEgo]⟩
+  rw [hm, filter2_renderMap Pm Pc _ e.planar h hb]
+  unfold idsOf
+  cases filter2 { Pm with hasTransforms := true } { Pc with hasTransforms := true } (os.map filterViewEgo) with
+  | error err => rfl
+  | ok ks =>
+    simp only [Except.map, List.map_map]
+    rfl
+
 /-! ## non-vacuity: a concrete pose and pair -/
 
 def exPose : Pose := { rot := ⟨3/5, 4/5⟩, tau := 59/200, t := ⟨1000, -2000, 0⟩ }
@@ -200,5 +270,30 @@ example : exFar.rot.IsUnit := by unfold Rot2.IsUnit exFar; norm_num
 example : exTwinA.samePose exTwinB = false ∧ (exTwinA.toMap exFar).samePose (exTwinB.toMap exFar) = false ∧
     (exTwinA.toMap exFar).samePose (exTwinA.toMap exFar) = true := by decide +kernel
 example : containsPose ([exTwinA].map (Obj.toMap exFar)) (exTwinB.toMap exFar) = false := by decide +kernel
+
+/-- an overpass: a car 6.7 m from the ego in bird's-eye view and 7 m above it; the ego itself 37.5 m above
+the map origin. The ring filter (min 8 m) removes the car in both renderings although its 3-D distance
+(9.7 m) is outside the ring; an x/y box with a minimum point count removes the sparse ground truth
+(3 points < 5) in both renderings. -/
+def exHigh : Pose := { rot := ⟨3/5, 4/5⟩, tau := 59/200, t := ⟨1000, -2000, 75/2⟩ }
+def exOver : Obj := { box := { center := ⟨6, 3, 7⟩, rot := ⟨1, 0⟩, w := 2, l := 9/2, h := 3/2 }, tau := 0 }
+def exTag (i : Nat) (pc : Int) : Tag :=
+  { id := i, label := "AutowareLabel.CAR", name := "car", attributes := [], score := 1, pcNum := some pc, uuid := some "u" }
+def exRing : Filter.Params :=
+  { isGt := true, targets := some ["AutowareLabel.CAR"], ignoreAttrs := none, maxX := none, maxY := none,
+    maxDist := some [60], minDist := some [8], conf := none, minPts := some [0], uuids := none, hasTransforms := true }
+def exBox : Filter.Params :=
+  { exRing with maxX := some [60], maxY := some [40], maxDist := none, minDist := none, minPts := some [5] }
+def exScene : List Tagged := [⟨exTag 0 10, exOver⟩, ⟨exTag 1 3, exGt⟩, ⟨exTag 2 5, exEst⟩]
+
+example : exHigh.rot.IsUnit := by unfold Rot2.IsUnit exHigh; norm_num
+example : (exOver.toMap exHigh).box.center.z = 89/2 := by decide +kernel
+example : bevDist2Map exHigh (exOver.toMap exHigh) = 45 ∧
+    norm3sq (toEgo3 exHigh (exOver.toMap exHigh).box.center) = 94 ∧
+    Filter.distGt 45 8 = false ∧ Filter.distGt 94 8 = true := by decide +kernel
+example : keptMap exHigh exRing exRing (exScene.map (Tagged.toMap exHigh)) = .ok [1, 2] ∧
+    keptEgo exRing exRing exScene = .ok [1, 2] := by decide +kernel
+example : keptMap exHigh exBox exBox (exScene.map (Tagged.toMap exHigh)) = .ok [0, 2] ∧
+    keptEgo exBox exBox exScene = .ok [0, 2] := by decide +kernel
 
 end PEval.C07
